@@ -249,7 +249,7 @@ impl DocumentBuilder {
         Ok(self.add(Value::Text(Text::new(content.to_string())), xot))
     }
 
-    fn cdata_text(&mut self, content: &str, xot: &mut Xot) -> Result<NodeId, ParseError> {
+    fn cdata_text(&mut self, content: &str, xot: &mut Xot) -> Result<Option<NodeId>, ParseError> {
         // line ends are normalized in CDATA sections too
         // https://www.w3.org/TR/xml/#sec-line-ends
         let normalized;
@@ -260,9 +260,16 @@ impl DocumentBuilder {
             content
         };
         if let Some(last) = self.consolidate_text(content, xot) {
-            return Ok(last);
+            return Ok(Some(last));
         }
-        Ok(self.add(Value::Text(Text::new(content.to_string())), xot))
+        // an empty CDATA section on its own denotes no character data at all:
+        // do not create an empty text node for it
+        if content.is_empty() {
+            return Ok(None);
+        }
+        Ok(Some(
+            self.add(Value::Text(Text::new(content.to_string())), xot),
+        ))
     }
 
     fn close_element_immediate(&mut self, xot: &mut Xot) -> NodeId {
@@ -745,8 +752,9 @@ impl Xot {
                         span_info.extend_text_span(node_id.into(), text.into());
                     }
                     Cdata { text, span: _ } => {
-                        let node_id = builder.cdata_text(text.as_str(), self)?;
-                        span_info.extend_text_span(node_id.into(), text.into());
+                        if let Some(node_id) = builder.cdata_text(text.as_str(), self)? {
+                            span_info.extend_text_span(node_id.into(), text.into());
+                        }
                     }
                     ElementStart {
                         prefix,
